@@ -439,7 +439,7 @@ def const(node):
     return node.value if isinstance(node, ast.Constant) else None
 
 
-def guard_tests(node, stop=None):
+def enclosing_tests(node, stop=None):
     """Tests of the If/IfExp/While ancestors of node, with polarity:
     list of (test expr, True if node is in the body / False if in orelse)."""
     out = []
@@ -461,15 +461,72 @@ def guard_tests(node, stop=None):
     return out
 
 
-def path_conditions(node, fn):
-    """[(test, polarity)] that hold when `node` is reached: the tests of the enclosing ifs (guard_tests) and, negated, the
-    tests of earlier sibling ifs whose bodies always exit.  With normalisation N3 an `else` after an exit and the plain
-    early-exit style give the same list."""
-    st = node if isinstance(node, ast.stmt) else statement_of(node)
-    out = list(guard_tests(node, fn))
-    for t in prior_exit_guards(st, fn):
-        out.append((t, False))
+def flatten_conditions(conds):
+    """[(test, polarity)] with negations folded into the polarity and conjunctions split: (`not X`, p) is (X, not p),
+    (`A and B`, True) is (A, True), (B, True), (`A or B`, False) is (A, False), (B, False); a chained comparison that holds
+    is split into its links."""
+    out = []
+    todo = list(conds)
+    while todo:
+        t, p = todo.pop(0)
+        if isinstance(t, ast.UnaryOp) and isinstance(t.op, ast.Not):
+            todo.insert(0, (t.operand, not p))
+        elif isinstance(t, ast.BoolOp) and ((isinstance(t.op, ast.And) and p) or (isinstance(t.op, ast.Or) and not p)):
+            todo[0:0] = [(v, p) for v in t.values]
+        elif isinstance(t, ast.Compare) and len(t.ops) > 1 and p:
+            # a chained comparison that holds: every link holds
+            links, left = [], t.left
+            for op, right in zip(t.ops, t.comparators):
+                links.append((ast.copy_location(ast.Compare(left=left, ops=[op], comparators=[right]), t), True))
+                left = right
+            todo[0:0] = links
+        else:
+            out.append((t, p))
     return out
+
+
+_COMPLEMENT = {ast.Eq: ast.NotEq, ast.NotEq: ast.Eq, ast.Is: ast.IsNot, ast.IsNot: ast.Is, ast.In: ast.NotIn, ast.NotIn: ast.In, ast.Lt: ast.GtE, ast.GtE: ast.Lt, ast.Gt: ast.LtE, ast.LtE: ast.Gt}
+
+
+def holds(conds, *texts):
+    """True when the conditions [(test, polarity)] (flattened here) contain one of the facts `texts` (source text of an
+    expression): as a true atom, or as a false atom of the complementary comparison (`a != b` false is `a == b`; `a < b`
+    false is `a >= b`, for the totally ordered values the rules apply this to).  A fact `not X` is X as a false atom."""
+    atoms = flatten_conditions(conds)
+    have = set()
+    for t, p in atoms:
+        have.add((ctext(t), p))
+        if isinstance(t, ast.Compare) and len(t.ops) == 1 and type(t.ops[0]) in _COMPLEMENT:
+            comp = ast.Compare(left=t.left, ops=[_COMPLEMENT[type(t.ops[0])]()], comparators=t.comparators)
+            have.add((ctext(comp), not p))
+    for text in texts:
+        want = flatten_conditions([(ast.parse(text.strip(), mode="eval").body, True)])
+        if all((ctext(t), p) in have for t, p in want):
+            return True
+    return False
+
+
+def guard_tests(node, stop=None):
+    """[(test, polarity)] that hold when `node` is reached: the tests of the enclosing If/IfExp/While (True in the body,
+    False in the orelse) and, negated, the tests of earlier sibling ifs whose bodies always exit -- so the early-exit
+    style, the if/else style and a test written the other way round give the same conditions."""
+    fn = stop
+    if fn is None:
+        fn = next((a for a in ancestors(node) if isinstance(a, (ast.FunctionDef, ast.AsyncFunctionDef, ast.Lambda))), None)
+    out = list(enclosing_tests(node, stop))
+    try:
+        st = node if isinstance(node, ast.stmt) else statement_of(node)
+    except Exception:
+        st = None
+    if st is not None and fn is not None and not isinstance(fn, ast.Lambda):
+        for t in prior_exit_guards(st, fn):
+            out.append((t, False))
+    return out
+
+
+def path_conditions(node, fn):
+    """guard_tests up to fn (kept for its callers)."""
+    return guard_tests(node, fn)
 
 
 def prior_exit_guards(stmt, fn):
@@ -1043,10 +1100,21 @@ def bool_table(fn_or_text, max_atoms=8):
 # ---------------------------------------------------------------------------------------------------------------------
 
 
+def assumption_atoms(asm):
+    """The assumptions {test text: bool} of a path as [(atom expr, polarity)] with negations folded and conjunctions
+    (true) / disjunctions (false) split."""
+    return flatten_conditions([(ast.parse(k, mode="eval").body, v) for k, v in asm.items()])
+
+
+TRACE = "<trace>"  # key of env under which enumerate_paths records the statements executed on the path, in order
+
+
 def enumerate_paths(fn, decide=None, max_paths=256):
     """Yield (assumptions, env, exit) for every path through fn's body, where assumptions is {test text: bool} for the
     tests that had to be split, env is {local: value expr at the exit} and exit is the Return / Raise node (None when
     the body falls off its end).  `decide(test, env, assumptions)` may return True / False to prune; None splits.
+    env[TRACE] is the tuple of non-if statements executed on the path, in order (loops and withs as single entries,
+    the with body inlined after its entry).
     Statement kinds other than If / Assign / AugAssign / Return / Raise / Assert / Expr / Pass / Import decline."""
     out = []
 
@@ -1096,6 +1164,9 @@ def enumerate_paths(fn, decide=None, max_paths=256):
         if not stmts:
             return k(env, asm)
         s, rest = stmts[0], stmts[1:]
+        if not isinstance(s, ast.If):
+            env = dict(env)
+            env[TRACE] = env.get(TRACE, ()) + (s,)
         if isinstance(s, ast.If):
             v = dec(s.test, env, asm)
             for branch, body in ((True, s.body), (False, s.orelse)):
